@@ -8,7 +8,12 @@ require (
 	github.com/spaolacci/murmur3 v1.1.0
 )
 
-require github.com/apache/thrift v0.19.0 // indirect
+require (
+	github.com/apache/thrift v0.19.0 // indirect
+	github.com/bytedance/gopkg v0.1.1 // indirect
+	github.com/cloudwego/frugal v0.2.1 // indirect
+	github.com/cloudwego/gopkg v0.1.2 // indirect
+)
 
 replace github.com/B1NARY-GR0UP/originium => /repo
 
